@@ -380,6 +380,29 @@ def step (w : RWorld) (toks : List String) : Option (RWorld × String) :=
     | some b => match Packet.fromBytes b with
       | .ok p => (w, showTerm p)
       | .error e => (w, s!"err:{e.name}")
+  | ["cansend", who, ch, n] => some <| match parseWho who, ch.toNat?, n.toNat? with
+    | some tgt, some ch, some n =>
+      let ans (c : Conn) : Option String :=
+        match SMap.find? c.sendRel ch with
+        | some s => some (toString (s.canSend n))
+        | none => match SMap.find? c.sendUnrel ch with
+          | some s => some (toString (s.canSend n))
+          | none => none
+      match tgt with
+      | .client h => match SMap.find? w.clients h with
+        | none => (w, "bad-op")
+        | some c => match ans c with
+          | some o => (w, o)
+          | none => ({ w with dead := true }, "panic")
+      | .sconn id => match w.server with
+        | none => (w, "bad-op")
+        | some s => match SMap.find? s.conns id with
+          | none => (w, "false")
+          | some c => match ans c with
+            | some o => (w, o)
+            | none => ({ w with dead := true }, "panic")
+      | .srv => (w, "bad-op")
+    | _, _, _ => (w, "bad-op")
   | ["setc", h] => some <| match h.toNat? with
     | some h => withClient w h fun c => pure (c.setConnected, "ok")
     | none => (w, "bad-op")
